@@ -1051,6 +1051,32 @@ class NativeExtraCases:
                     bad.append(dict(case="cube with FODs", field="differs"))
             except Exception as e:  # noqa: BLE001
                 bad.append(dict(case="cube with FODs", raised=f"{type(e).__name__}: {e}"))
+            # TRAJ / XYZ with user-chosen FOD labels: a list of frames, a single frame and the XYZ writer all use the labels they were given
+            from eminus.io import read_traj, read_xyz, write_traj, write_xyz
+
+            he = Atoms(["He", "H"], [[1.0, 1.1, 0.9], [2.5, 1.0, 1.4]], ecut=1, a=8, unrestricted=True)
+            labels = ("Xx", "Yy")
+            for what in ("list of two frames", "single frame", "xyz"):
+                fn = os.path.join(d, "l.traj" if what != "xyz" else "l.xyz")
+                if os.path.exists(fn):
+                    os.remove(fn)
+                try:
+                    if what == "list of two frames":
+                        write_traj([he, he], fn, fods=fods, elec_symbols=labels)
+                        frames = read_traj(fn)
+                    elif what == "single frame":
+                        write_traj(he, fn, fods=fods, elec_symbols=labels)
+                        frames = read_traj(fn)
+                    else:
+                        write_xyz(he, fn, fods=fods, elec_symbols=labels)
+                        frames = [read_xyz(fn)]
+                    want = ["He", "H", "Xx", "Xx", "Yy"]
+                    for i, (atom, pos) in enumerate(frames):
+                        if list(atom) != want:
+                            bad.append(dict(case=f"FOD labels {labels}, {what}", frame=i, species_read=list(atom), expected=want))
+                            break
+                except Exception as e:  # noqa: BLE001
+                    bad.append(dict(case=f"FOD labels {labels}, {what}", raised=f"{type(e).__name__}: {e}"))
             # foreign XYZ with a comment line and trailing blank lines
             fx = os.path.join(d, "f.xyz")
             open(fx, "w").write("3\nwater, trailing blank lines\nO   0.000000  0.000000  0.117300\nH   0.000000  0.757200 -0.469200\nH   0.000000 -0.757200 -0.469200\n\n\n")
